@@ -61,7 +61,7 @@ RULE = (
     "table generator (2-7 columns of 12 type tokens, nullability, server defaults, rowid/named/composite/text/no PK, named+unnamed "
     "UNIQUE/CHECK/FK incl. self-referential, plain+unique indexes, partial indexes (plain and unique, `WHERE` predicate; compared through the stored CREATE INDEX text), long table name; 35% of the tables have Boolean / Enum columns whose "
     "schema type carries a named CHECK (create_constraint=True, name=...)) x row generator (NULL, quotes, Unicode, "
-    "big ints, floats, blobs, off-type values) x 1-4 batch ops (add/drop/alter column incl. rename/type/nullable/default, "
+    "big ints, fractional / out-of-range floats, blobs, off-type values; fixed battery of numeric / text columns retyped to INTEGER / BIGINT / SMALLINT and back) x 1-4 batch ops (add/drop/alter column incl. rename/type/nullable/default, "
     "insert_before/after, add/drop unique/check/fk/pk, create/drop index; autogenerate-style alter_column / drop_column calls passing "
     "existing_type=Boolean/Enum(create_constraint=True, name=...) for nullable / server_default / comment changes, renames and retypes; "
     "8% naming something that does not exist) x "
@@ -226,6 +226,11 @@ def run(ctx, n_cases=None, rng_name="main"):
             col = {"name": "n1", "ty": "INTEGER" if d != "'x'" else "VARCHAR(20)", "aff": "Integer" if d != "'x'" else "String",
                    "nullable": True, "default": d, "dval": bg.default_value(d), "pk": False}
             one(ctx, bc.new_case(t, [{"op": "add_column", "col": col, "before": None, "after": None}], "auto", j == 1), pending)
+    # fixed battery: retypes across type families on fractional / out-of-range / non-numeric values (CAST semantics)
+    nt, seqs = bg.numeric_retype_battery()
+    for ops in seqs:
+        for cf in (False, True):
+            one(ctx, bc.new_case(nt, ops, "always", cf), pending)
     for i in range(n):
         one(ctx, gen_case(rng, big=ctx.thorough and i % 4 == 0), pending)
         if len(pending) >= 250:
